@@ -184,3 +184,159 @@ pub fn run_c01(ctx: &Ctx) {
     }
     out.finish(&ctx.out_dir, "sigc01", &[]);
 }
+
+/// random-data FSK at an arbitrary baud rate (continuous phase), no framing
+fn fsk_random(a: &mut Audio, rng: &mut Rng, baud: f64, nbits: usize) {
+    let sps = a.line.rate as f64 / baud;
+    let mut phase = 0.0f64;
+    let mut acc = 0.0f64;
+    let mut out = vec![];
+    for _ in 0..nbits {
+        let f = if rng.chance(1, 2) { MARK_HZ } else { SPACE_HZ };
+        acc += sps;
+        while (out.len() as f64) < acc {
+            phase += 2.0 * std::f64::consts::PI * f / a.line.rate as f64;
+            out.push((phase.sin() * a.line.amplitude) as f32);
+        }
+    }
+    a.raw(&out);
+}
+
+fn tone(a: &mut Audio, freq: f64, secs: f64) {
+    let n = (secs * a.line.rate as f64) as usize;
+    let xs: Vec<f32> = (0..n).map(|i| ((2.0 * std::f64::consts::PI * freq * i as f64 / a.line.rate as f64).sin() * a.line.amplitude) as f32).collect();
+    a.raw(&xs);
+}
+
+fn noise(a: &mut Audio, rng: &mut Rng, secs: f64) {
+    let n = (secs * a.line.rate as f64) as usize;
+    let xs: Vec<f32> = (0..n).map(|_| (rng.gauss() * a.line.amplitude * 0.5) as f32).collect();
+    a.raw(&xs);
+}
+
+/// speech-band programme: a few drifting partials with syllabic amplitude modulation
+fn programme(a: &mut Audio, rng: &mut Rng, secs: f64) {
+    let n = (secs * a.line.rate as f64) as usize;
+    let partials: Vec<(f64, f64, f64)> = (0..6).map(|_| (300.0 + rng.unit() * 2700.0, rng.unit() * 6.28, 2.0 + rng.unit() * 6.0)).collect();
+    let xs: Vec<f32> = (0..n)
+        .map(|i| {
+            let t = i as f64 / a.line.rate as f64;
+            let mut v = 0.0;
+            for (f, ph, am) in &partials {
+                v += (2.0 * std::f64::consts::PI * f * t + ph).sin() * (0.5 + 0.5 * (2.0 * std::f64::consts::PI * am * t).sin());
+            }
+            (v / 6.0 * a.line.amplitude * 2.0) as f32
+        })
+        .collect();
+    a.raw(&xs);
+}
+
+/// Suite `signear`: audio with no (complete) SAME transmission — the near-miss library of C04.
+pub fn run_near(ctx: &Ctx) {
+    let mut out = Out::create(&ctx.out_dir, "signear");
+    let mut rng = Rng::new(ctx.seed ^ 0xC04);
+    let n = if ctx.tier_thorough { 3000 } else { 150 };
+    let kinds = [
+        "silence", "noise", "tone_mark", "tone_space", "tone_other", "programme", "fsk_1200", "fsk_300", "fsk_520_no_preamble",
+        "preamble_only", "lone_header", "lone_header_noisy", "disagreeing_pair", "prefix_errors", "header_then_other_header", "lone_trailer_after_header",
+    ];
+    for i in 0..n {
+        let rate = pick_rate(&mut rng, i);
+        let mut lg = gen_line(&mut rng, rate);
+        let kind = kinds[i % kinds.len()];
+        if kind != "lone_header_noisy" {
+            lg.line.noise_rel = 0.0;
+        }
+        let mut a = Audio::new(lg.line.clone());
+        a.silence(0.3 + rng.unit(), &mut rng);
+        let h = gen_header_any(&mut rng).text().into_bytes();
+        let mut expect_nosom = true;
+        match kind {
+            "silence" => a.silence(3.0, &mut rng),
+            "noise" => noise(&mut a, &mut rng, 3.0),
+            "tone_mark" => tone(&mut a, MARK_HZ, 3.0),
+            "tone_space" => tone(&mut a, SPACE_HZ, 3.0),
+            "tone_other" => {
+                let f = 300.0 + rng.unit() * 3000.0;
+                tone(&mut a, f, 3.0)
+            }
+            "programme" => programme(&mut a, &mut rng, 4.0),
+            "fsk_1200" => fsk_random(&mut a, &mut rng, 1200.0, 4000),
+            "fsk_300" => fsk_random(&mut a, &mut rng, 300.0, 1000),
+            "fsk_520_no_preamble" => {
+                // right baud, right tones, random bytes from the SAME character set, no preamble
+                let bytes: Vec<u8> = (0..200).map(|_| *rng.pick(CALL_CHARS)).collect();
+                a.burst(0, &bytes, &mut rng);
+            }
+            "preamble_only" => {
+                let k = rng.range(16, 60) as usize;
+                a.burst(k, &[], &mut rng)
+            }
+            "lone_header" | "lone_header_noisy" => a.burst(16, &h, &mut rng),
+            "disagreeing_pair" => {
+                a.burst(16, &h, &mut rng);
+                a.silence(lg.pause, &mut rng);
+                let mut h2 = gen_header_any(&mut rng).text().into_bytes();
+                if h2 == h {
+                    h2[6] ^= 1;
+                }
+                a.burst(16, &h2, &mut rng);
+            }
+            "prefix_errors" => {
+                // three bursts whose ZCZC prefix has 3+ bit errors: never framed
+                let mut hb = h.clone();
+                hb[0] ^= 0x03;
+                hb[1] ^= 0x10;
+                hb[2] ^= 0x04;
+                for k in 0..3 {
+                    a.burst(16, &hb, &mut rng);
+                    if k < 2 {
+                        a.silence(lg.pause, &mut rng);
+                    }
+                }
+            }
+            "header_then_other_header" => {
+                a.burst(16, &h, &mut rng);
+                a.silence(lg.pause, &mut rng);
+                let h2 = gen_header_any(&mut rng).text().into_bytes();
+                a.burst(16, &h2, &mut rng);
+                a.silence(lg.pause, &mut rng);
+                let h3 = gen_header_any(&mut rng).text().into_bytes();
+                a.burst(16, &h3, &mut rng);
+            }
+            _ => {
+                // one header burst, then a full trailer: an EndOfMessage but never a StartOfMessage
+                a.burst(16, &h, &mut rng);
+                a.silence(2.0, &mut rng);
+                for k in 0..3 {
+                    a.burst(16, b"NNNN", &mut rng);
+                    if k < 2 {
+                        a.silence(lg.pause, &mut rng);
+                    }
+                }
+            }
+        }
+        if kind == "header_then_other_header" {
+            // three different headers could in principle vote to something; evidence rule only
+            expect_nosom = true;
+        }
+        a.silence(2.5, &mut rng);
+        let cfg = if rng.chance(1, 2) { Cfg::Default } else { Cfg::Samedec };
+        let mut r = build(cfg, rate);
+        let (evs, taps) = run_tapped(&mut r, &a.samples);
+        let label = format!("{} cfg={:?} kind={}", lg.line.describe(), cfg, kind).replace(' ', ";");
+        let (op, imp) = link_op(&taps);
+        out.op(&op, &imp, true);
+        let (op, imp) = rx_op(rate, &taps, &evs);
+        out.op(&op, &imp, true);
+        let evline = show_events(&evs);
+        out.spec(&format!("spec.sig c04 {} [{}] => {}", rate, label, evline));
+        out.spec(&format!("spec.sig c13life - [{}] => {}", label, evline));
+        if expect_nosom {
+            out.spec(&format!("spec.sig nosom - [{}] => {}", label, evline));
+        }
+        out.count(&format!("kind:{}", kind));
+        out.count(&format!("bursts_seen:{}", evs.iter().filter(|e| e.burst().is_some()).count()));
+    }
+    out.finish(&ctx.out_dir, "signear", &[]);
+}
